@@ -183,7 +183,15 @@ def popn(ev):
     if it[2] != "fwd":
         return None
     bodies = ev["bodies"]
-    if len(bodies) != 1 or [b["e"] for b in bodies[0]] != ["pop"]:
+    if len(bodies) != 1:
+        return None
+    kinds = [b["e"] for b in bodies[0]]
+    into = ev["eff"].get("pushes_into")
+    if into is not None:
+        # the explicit loop `for _ in 0..n { v.push(stack.pop()?) }` (canonicalised to a collect by the executor)
+        if kinds != ["pop", "call"] or bodies[0][1].get("op") != "push" or bodies[0][1].get("recv") != into:
+            return None
+    elif kinds != ["pop"]:
         return None
     if ev["results"] != [bodies[0][0]["val"]]:
         return None
@@ -191,7 +199,10 @@ def popn(ev):
     if f.get("start") != lit(0):
         return None
     cr = ev["eff"].get("collect_result")
-    return {"n": f.get("end"), "seq": ("payload", cr) if cr else None, "order": "pop"}
+    seq = ("payload", cr) if cr else None
+    if into is not None:
+        seq = ("app", "collected", (lit(ev["eff"].get("loop")),))
+    return {"n": f.get("end"), "seq": seq, "order": "pop"}
 
 
 def strip_cast(t):
